@@ -106,9 +106,25 @@ PROPS = {
              "while a callback for that key was fired-but-unfinished; distinct by the schedule.",
              COMMON_ASSUME + ["time.AfterFunc's documented Stop/Reset semantics are modelled by vclock, not observed on the real runtime timer"],
              "runtime monitor: injected virtual clock with controllable callback placement + lifetime model + timer-registry invariants; race detector"),
+    "C11": P(True, (16, 16), 16, (1500, 7200), 2000, 1000, "exploration",
+             "one evaluation = one (byte stream, segmentation) over one TCP connection to a real collecting process: the stream concatenates "
+             "2..7 template/data messages, optionally with one invalid message at any position (unknown template id, unknown element in strict "
+             "mode, wrong version, header length < 16, record truncated inside the message, header length beyond the bytes that follow); it is "
+             "written in chunks at the given cut points (TCP_NODELAY, 150-400 us pauses). Deliveries for the connection's observation domain "
+             "must be exactly the frames refipfix cuts at the header lengths, up to and excluding the first frame the template model rejects, "
+             "each matching refipfix's reading; after that frame the collector must close the connection (client sees EOF/RST) and deliver "
+             "nothing more; a long-lived healthy connection sending a message every 0.5 ms for the whole batch must lose and reorder nothing. "
+             "Exhaustive: every single and double cut point of short streams (seed-independent); random: 0..20 cuts, 1-byte-at-a-time, "
+             "all-in-one. Non-trivial = >= 1 cut strictly inside a message; distinct by (stream, cut set).",
+             COMMON_ASSUME + ["the kernel may coalesce chunks despite TCP_NODELAY and pauses: the segmentation written is recorded, the one the collector's reads saw is not observable without a hook",
+                              "'connection closed' is decided with a 15 s wall-clock bound (normal: < 1 ms)"],
+             "runtime monitor: own framer + reference decoder over real TCP connections with controlled segmentation; race detector"),
 }
 
 LEVEL_TEXT = {
+    "C11": "Held on every (stream, segmentation) explored, including every 1- and 2-cut of short streams and an invalid message at every "
+           "position. Segmentation is a scheduling dimension the suite never varies; driving it from the client socket is the strongest "
+           "observation available without hooking the reader.",
     "C10": "Held on every schedule explored, with the placement of timer firing, the callback's clock read and its completion relative "
            "to refreshes/replacements/invalidations enumerated exhaustively to a bounded depth (the clock is under the harness's control, "
            "so schedules are inputs here, not luck), and real concurrency between a callback and an operation under the race detector.",
